@@ -88,7 +88,7 @@ CHECKS = {
             "operational model, all four roles, the response-queue panic flag is never set (queue-index invariant W). "
             "The sink side is carried by the sink theorems for acknowledgements and by runs against busy endpoints. "
             "Partial: hangs inside ntex are observed only.", "section 5, C16"),
-    "C17": ("Coq theorems (Props/C17.v, 13): an alias-only PUBLISH is delivered with the topic most recently bound "
+    "C17": ("Coq theorems (Props/C17.v, 13; Props/C17router.v, 4: with the router's own alias cache in the model, handler and topic of every PUBLISH of every history equal the cache-free routing by resolved topic, for any recognizer and any initial cache): an alias-only PUBLISH is delivered with the topic most recently bound "
             "to that alias on this connection, a PUBLISH with topic and alias rebinds exactly that alias, nothing else "
             "changes the table, unbound aliases are never delivered (0x94 once earlier checks pass), aliases over the "
             "maximum are neither delivered nor recorded, two connections' tables never influence each other (any "
